@@ -389,6 +389,17 @@ static void emit_formatted(WorkList *list, const char *fmt, ...) {
     worklist_append(list, item);
 }
 
+/* A double as a C constant of type double that reads back as exactly the same value
+ * ("%g" kept 6 significant digits, and printed 100.0 as the int constant 100) */
+static void emit_float_constant(WorkList *list, double v) {
+    if (v != v) { emit_literal(list, "(0.0/0.0)"); return; }
+    if (v - v != 0.0) { emit_literal(list, v > 0 ? "(1.0/0.0)" : "(-1.0/0.0)"); return; }
+    char text[64];
+    snprintf(text, sizeof(text), "%.17g", v);
+    if (!strpbrk(text, ".eE")) strcat(text, ".0");
+    emit_literal(list, text);
+}
+
 static void emit_indent_item(WorkList *list, int level) {
     WorkItem item;
     item.type = WORK_INDENT;
@@ -719,11 +730,7 @@ static void build_expr(WorkList *list, ASTNode *expr, Environment *env) {
             break;
             
         case AST_FLOAT:
-            if (expr->as.float_val == (double)(int64_t)expr->as.float_val) {
-                emit_formatted(list, "%.1f", expr->as.float_val);
-            } else {
-                emit_formatted(list, "%g", expr->as.float_val);
-            }
+            emit_float_constant(list, expr->as.float_val);
             break;
             
         case AST_STRING:
@@ -743,7 +750,7 @@ static void build_expr(WorkList *list, ASTNode *expr, Environment *env) {
                     emit_formatted(list, "%lldLL", (long long)sym->value.as.int_val);
                     return;
                 } else if (sym->value.type == VAL_FLOAT) {
-                    emit_formatted(list, "%g", sym->value.as.float_val);
+                    emit_float_constant(list, sym->value.as.float_val);
                     return;
                 } else if (sym->value.type == VAL_BOOL) {
                     emit_literal(list, sym->value.as.bool_val ? "true" : "false");
